@@ -37,6 +37,7 @@ def dispatch (cmd : String) (args : List Sexp) : Option String :=
   | "rename.assign" => Driver.Rename.assignCmd args
   | "ministring" => Driver.Strings.ministring args
   | "shebang" => Driver.Strings.shebang args
+  | "encoding.normal" => Driver.Strings.encodingNormal args
   | "strlex" => Driver.Strings.strlex args
   | "esc.violations" => Driver.Strings.escViolations args
   | "fold" => Driver.Fold.fold args
